@@ -20,7 +20,7 @@ ORACLE_OWNER = {
 }
 
 
-def run_harness(ctx, prop, nrand, repeat, stress, timeout_ms=4000):
+def run_harness(ctx, prop, nrand, repeat, stress, timeout_ms=10000):
     """Run the Go harness against /repo's working tree. Returns (ok, runs, oracles, aborted, output)."""
     out = os.path.join(ctx.tmp, "%s_runner.jsonl" % prop.lower())
     seed = ctx.seed * 100 + int(prop[1:])
